@@ -115,6 +115,18 @@ def sel_spec(draw, min_nodes=3, max_nodes=12, max_incompat=3, p_extra=True, max_
                 nodes['qo0'] = {'k': 'gen'}
                 choices.append({'origin': tail, 'opts': ['qo0', v]})
 
+    restart_first = None
+    if p_extra and len(placed) > n_start and draw(ints(0, 5)) == 0:
+        # an additional start node that is itself derived / an option below the other start nodes (made permanent by
+        # declaring it a start node); in half of these the graph is initialised twice (first without it)
+        # (not an option node itself: a permanent node that is also an unselected option is the class of KF01)
+        cand = [v for v in placed[n_start:] if not any(v in c['opts'] for c in choices)]
+        if cand:
+            extra = draw(st.sampled_from(cand))
+            if draw(st.booleans()):
+                restart_first = list(start)
+            start = list(start)+[extra]
+
     incompat = []
     n_inc = draw(ints(0, max_incompat))
     for _ in range(n_inc):
@@ -128,8 +140,11 @@ def sel_spec(draw, min_nodes=3, max_nodes=12, max_incompat=3, p_extra=True, max_
     ids = draw(st.permutations([f'c{i}' for i in range(len(choices))])) if choices else []
     out_choices = [{'id': ids[i], 'origin': c['origin'], 'opts': c['opts']} for i, c in enumerate(choices)]
     salt = draw(st.sampled_from([0, 0, 1, 2, 3, 5, 7]))
-    return {'salt': salt, 'nodes': nodes, 'edges': edges, 'choices': out_choices, 'incompat': incompat,
-            'start': start, 'conns': [], 'cons': []}
+    out = {'salt': salt, 'nodes': nodes, 'edges': edges, 'choices': out_choices, 'incompat': incompat,
+           'start': start, 'conns': [], 'cons': []}
+    if restart_first:
+        out['restart_first'] = restart_first
+    return out
 
 
 @st.composite
@@ -447,6 +462,8 @@ def labels(spec):
         out.append('multi_choice_origin')
     if len(spec['start']) > 1:
         out.append('multi_start')
+    if spec.get('restart_first'):
+        out.append('initialised_twice')
     if any(n.startswith('q') and not n.endswith('x') for n in spec['nodes']):
         out.append('non_start_roots')
     if any(len(c['opts']) == 1 for c in spec['choices']):
